@@ -57,6 +57,17 @@ func runScripted(rep *Report, leanMode string, mk func() Impl, cases []Case, ora
 	}
 	rep.DistinctNontrivial += dc.n()
 
+	seenV := map[string]bool{}
+	addV := func(v Violation) {
+		h := hashLines(v.Script)
+		if seenV[h] || len(rep.Violations) >= 5 {
+			rep.count("violations-not-listed")
+			return
+		}
+		seenV[h] = true
+		writeReplay(rep.Property, rep.Mode, &v)
+		rep.Violations = append(rep.Violations, v)
+	}
 	// run in batches to bound memory
 	const batch = 2000
 	for lo := 0; lo < len(cases); lo += batch {
@@ -98,9 +109,11 @@ func runScripted(rep *Report, leanMode string, mk func() Impl, cases []Case, ora
 				if lo2, e := runLean(leanMode, []Case{small}); e == nil {
 					v.LeanOut = lo2[0]
 				}
-				writeReplay(rep.Property, rep.Mode, &v)
-				rep.Violations = append(rep.Violations, v)
+				addV(v)
 			}
+		}
+		if len(rep.Violations) >= 5 {
+			return
 		}
 		// correspondence failures
 		for n, i := range bad {
@@ -133,8 +146,7 @@ func runScripted(rep *Report, leanMode string, mk func() Impl, cases []Case, ora
 				}
 			}
 			v := Violation{Property: rep.Property, Kind: kind, Clause: clause, Script: small.Lines, GoOut: g, LeanOut: lo2}
-			writeReplay(rep.Property, rep.Mode, &v)
-			rep.Violations = append(rep.Violations, v)
+			addV(v)
 			_ = leanOuts
 		}
 	}
